@@ -88,6 +88,8 @@ def construct(case, pose, num):
             objs.append(ConvexPolygon(tuple(args[i] for i in a)))
         elif k == "Polyhedron":
             objs.append(ConvexPolyhedron(tuple(objs[i] for i in a)))
+        elif k == "Neg":
+            objs.append(-objs[a[0]])
         else:
             objs.append(build(h, pose, num))
     return args, objs
